@@ -302,6 +302,11 @@ func init() {
 				model.Dot{X: model.ObjLit{Keys: []string{"a", "b"}, Vals: []model.Expr{model.Lit{V: model.Int(1)}, model.Var{Name: "undefinedName"}}}, Name: "a"},
 				model.Ternary{C: model.Lit{V: model.Int(1)}, A: model.Var{Name: "undefinedName"}, B: model.Lit{V: model.Int(1)}},
 				model.Call{X: model.Call{X: model.ArrLit{}, Name: "append", Args: []model.Expr{model.Lit{V: model.Int(1)}, model.Var{Name: "undefinedName"}}}, Name: "len"},
+				// a chain of ternaries whose second or third condition fails
+				model.Ternary{C: model.Lit{V: model.Int(0)}, A: model.Lit{V: model.Int(1)}, B: model.Ternary{C: model.Var{Name: "undefinedName"}, A: model.Lit{V: model.Int(1)}, B: model.Lit{V: model.Int(0)}}},
+				model.Ternary{C: model.Lit{V: model.Int(0)}, A: model.Lit{V: model.Int(1)}, B: model.Ternary{C: model.Lit{V: model.Str("")}, A: model.Lit{V: model.Int(1)},
+					B: model.Ternary{C: model.Binary{Op: "/", L: model.Lit{V: model.Int(1)}, R: model.Lit{V: model.Int(0)}}, A: model.Lit{V: model.Int(1)}, B: model.Lit{V: model.Int(0)}}}},
+				model.Ternary{C: model.Lit{V: model.Int(0)}, A: model.Lit{V: model.Int(1)}, B: model.Paren{X: model.Ternary{C: model.Dot{X: model.Lit{V: model.Int(3)}, Name: "k"}, A: model.Lit{V: model.Int(1)}, B: model.Lit{V: model.Int(0)}}}},
 			}
 			type ecell struct {
 				shape  ifShape
